@@ -14,7 +14,7 @@ def render_nodes(addr, length, endian, nodes, cachable="NoCache", sibling_invali
     out = []
     names = ["N%d" % i for i in range(len(nodes))]
     for i, n in enumerate(nodes):
-        kw = dict(cachable=n.get("cachable", cachable), access="RW")
+        kw = dict(cachable=n.get("cachable", cachable), access=n.get("access", "RW"))
         if sibling_invalidators:
             kw["invalidators"] = [x for j, x in enumerate(names) if j != i]
         en = "BigEndian" if endian else "LittleEndian"
@@ -61,12 +61,12 @@ def model_op(op):
 
 
 def reg_case(addr, length, endian, base, image, nodes, ops, flags=1, cachable="NoCache", sibling_invalidators=False,
-             struct_entries=False, meta=None, port_swap=False):
+             struct_entries=False, meta=None, port_swap=False, struct_access="RW"):
     if struct_entries:
         ents = [("N%d" % i, n["lsb"], n["msb"], n["lsb"] if n.get("bit") else None,
                  "Signed" if n.get("sign") else "Unsigned") for i, n in enumerate(nodes)]
         xml = X.document([X.struct_reg(addr, length, ents, endian="BigEndian" if endian else "LittleEndian",
-                                       cachable=cachable, access="RW")])
+                                       cachable=cachable, access=struct_access)])
     else:
         xml = X.document(render_nodes(addr, length, endian, nodes, cachable, sibling_invalidators), port_swap=port_swap)
     rline = "g %d %s %d %s %s" % (flags, xhex(xml.encode()), base, xhex(image), " ".join(rust_op(o) for o in ops))
